@@ -492,6 +492,36 @@ func ruleG5(c *Ctx) {
 		if fn == nil {
 			continue
 		}
+		// a container field filled through its methods (sync.Map.Store, map update) is state just the same
+		walkHelpers(fn, 2, func(inFn *ssa.Function, in ssa.Instruction, _ ssa.Instruction) {
+			var recv ssa.Value
+			switch x := in.(type) {
+			case *ssa.Call:
+				if f := x.Call.StaticCallee(); f != nil && f.Signature.Recv() != nil && isNamed(f.Signature.Recv().Type(), "sync", "Map") && len(x.Call.Args) > 0 {
+					switch f.Name() {
+					case "Store", "LoadOrStore", "LoadAndDelete", "Delete", "Swap", "CompareAndSwap", "CompareAndDelete", "Clear":
+						recv = x.Call.Args[0]
+					}
+				}
+			case *ssa.MapUpdate:
+				recv = x.Map
+			}
+			if recv == nil {
+				return
+			}
+			b := baseOfAddrOrLoad(recv)
+			if fa, ok := b.(*ssa.FieldAddr); ok {
+				for _, tn := range []string{"Parser", "Clause", "Element", "LLk"} {
+					if isNamed(derefType(fa.X.Type()), modPath+"/bql/grammar", tn) {
+						if tn == "LLk" {
+							continue // the look-ahead window is per input, not per parser
+						}
+						cells++
+						c.bad(fmt.Sprintf("%s fills %s.%s", funcName(inFn), tn, fieldName(fa.X.Type(), fa.Field)), in.Pos(), "a container field of the parser is filled while parsing: what one statement left there (a memo, a fail-fast cache) decides how the next statement on the same parser is parsed")
+					}
+				}
+			}
+		})
 		allInstrs(fn, func(in ssa.Instruction) {
 			st, ok := in.(*ssa.Store)
 			if !ok {
@@ -510,4 +540,13 @@ func ruleG5(c *Ctx) {
 	if cells == 0 {
 		c.undecided("state inventory", token.NoPos, "no persistent cell found at all; the enumeration no longer recognises the hook closures")
 	}
+}
+
+
+// baseOfAddrOrLoad: &x.f or *(&x.f) -> the FieldAddr.
+func baseOfAddrOrLoad(v ssa.Value) ssa.Value {
+	if u, ok := v.(*ssa.UnOp); ok && u.Op == token.MUL {
+		return u.X
+	}
+	return v
 }
